@@ -45,6 +45,16 @@ Truncated(s) == SubSeq(s, 1, FirstNul(s) - 1)
 Unbackslashed(s) == [i \in 1..Len(s) |-> IF s[i] = BSLASH THEN SLASH ELSE s[i]]
 Mangled(n) == SelectSeq(Split(Unbackslashed(Truncated(n))), IsNormal)
 
+\* ---- the deprecated *_from_path calls of the writer: the entry name is the ordinary components joined by '/'
+\* ('\\' is an ordinary character of a component on this host; NULs are kept); a directory gets a trailing '/'
+RECURSIVE JoinSlash(_)
+JoinSlash(cs) == IF cs = <<>> THEN <<>> ELSE IF Len(cs) = 1 THEN cs[1] ELSE cs[1] \o <<SLASH>> \o JoinSlash(Tail(cs))
+\* (add_directory appends '/' unless the name already ends in '/' or '\\' - ZipWriter!AddDir)
+FromPath(n, dir) == LET j == JoinSlash(SelectSeq(Split(n), IsNormal)) IN
+                    IF dir /\ (j = <<>> \/ j[Len(j)] \notin {SLASH, BSLASH}) THEN j \o <<SLASH>> ELSE j
+\* such a name is always safe to extract
+FromPathSafe(n) == Enclosed(FromPath(n, FALSE)) # <<>> \/ HasNul(n)
+
 \* ---- the meaning of joining a relative path onto a base: stack of directories below the base
 RECURSIVE Resolve(_, _)
 Resolve(cs, st) ==           \* [esc: it popped the base itself, st: directories below the base]
